@@ -243,8 +243,8 @@ func (m *c13Machine) run(s c13Step) string {
 			case "mkdir":
 				m.seq++
 				// the same absolute path in every step (emptied in between): a result must not depend on what an earlier call
-		// made there
-		target := filepath.Join(m.dir, "t")
+				// made there
+				target := filepath.Join(m.dir, "t")
 				os.MkdirAll(target, 0o755)
 				err = gtree.MkdirFromRoot(root, gtree.WithTargetDir(target))
 				os.RemoveAll(target)
@@ -540,12 +540,14 @@ func c13Enumerate(t *testing.T, col *collector, maxLen int) {
 // ---- concurrent use -------------------------------------------------------------------------------------------------
 
 type c13Concurrent struct {
-	Histories [][]c13Step `json:"histories"` // one per goroutine, each on its own trees
-	Docs      []string    `json:"docs"`      // independent From-Markdown calls, one goroutine each
-	DryRun    []bool      `json:"dryRun"`    // per document: OutputFromMarkdown with WithDryRun + extension "b" instead of plain text
-	Procs     int         `json:"procs"`
-	Massive   bool        `json:"massive,omitempty"` // every output / walk of the histories uses WithMassive
-	FailFirst int         `json:"failFirst,omitempty"` // earlier calls whose reader fails half way (sequential and between the concurrent ones): an independent call's failure must not affect later calls
+	Histories  [][]c13Step `json:"histories"` // one per goroutine, each on its own trees
+	Docs       []string    `json:"docs"`      // independent From-Markdown calls, one goroutine each
+	DryRun     []bool      `json:"dryRun"`    // per document: OutputFromMarkdown with WithDryRun + extension "b" instead of plain text
+	Procs      int         `json:"procs"`
+	Massive    bool        `json:"massive,omitempty"`    // every output / walk of the histories uses WithMassive
+	DocFile    []bool      `json:"docFile,omitempty"`    // per document: the writer is an open regular file (*os.File) instead of a buffer
+	DocMassive []bool      `json:"docMassive,omitempty"` // per document (single root): the call uses WithMassive
+	FailFirst  int         `json:"failFirst,omitempty"`  // earlier calls whose reader fails half way (sequential and between the concurrent ones): an independent call's failure must not affect later calls
 }
 
 type halfReader struct {
@@ -578,14 +580,22 @@ func c13ConcurrentCheck(c c13Concurrent) string {
 	}
 	// expected outputs of the Markdown calls when run alone
 	optsOf := func(i int) ops.Opts {
+		o := ops.Opts{}
 		if i < len(c.DryRun) && c.DryRun[i] {
-			return ops.Opts{DryRun: true, Exts: []string{"b"}}
+			o = ops.Opts{DryRun: true, Exts: []string{"b"}}
 		}
-		return ops.Opts{}
+		o.Massive = i < len(c.DocMassive) && c.DocMassive[i]
+		return o
+	}
+	outputMD := func(doc string, o ops.Opts, i int) (string, error, string) {
+		if i >= len(c.DocFile) || !c.DocFile[i] {
+			return outputMD(doc, o)
+		}
+		return outputMDFile(doc, o)
 	}
 	want := make([]string, len(c.Docs))
 	for i, d := range c.Docs {
-		out, err, pan := outputMD(d, optsOf(i))
+		out, err, pan := outputMD(d, optsOf(i), i)
 		if err != nil || pan != "" {
 			return fmt.Sprintf("document %q fails when run alone: %v %s", d, err, pan)
 		}
@@ -626,7 +636,7 @@ func c13ConcurrentCheck(c c13Concurrent) string {
 			defer wg.Done()
 			<-start
 			for rep := 0; rep < 3; rep++ {
-				out, err, pan := outputMD(d, optsOf(i))
+				out, err, pan := outputMD(d, optsOf(i), i)
 				if err != nil || pan != "" || out != want[i] {
 					msgs[len(c.Histories)+i] = fmt.Sprintf("concurrent OutputFromMarkdown(%q) gave %q, %v %s; alone it gives %q", d, out, err, pan, want[i])
 					return
@@ -684,9 +694,12 @@ func TestC13Concurrent(t *testing.T) {
 		}
 		nd := rapid.IntRange(0, 6).Draw(rt, "docs")
 		for i := 0; i < nd; i++ {
-			f := genForest(forestParams{maxNodes: 8, maxDepth: 4, names: sampled(poolTiny)}).Draw(rt, "mdforest")
+			massive := rapid.IntRange(0, 2).Draw(rt, "mdmassive") == 0
+			f := genForest(forestParams{maxNodes: 8, maxDepth: 4, names: sampled(poolTiny), oneRoot: massive}).Draw(rt, "mdforest")
 			c.Docs = append(c.Docs, model.Spell(f, genSpelling(f.HeadingOK()).Draw(rt, "mdspelling")))
 			c.DryRun = append(c.DryRun, rapid.Bool().Draw(rt, "dryrun"))
+			c.DocMassive = append(c.DocMassive, massive)
+			c.DocFile = append(c.DocFile, rapid.IntRange(0, 2).Draw(rt, "file") == 0)
 		}
 		c.Procs = rapid.SampledFrom([]int{1, 2, 4, 16}).Draw(rt, "procs")
 		if nd > 0 && rapid.IntRange(0, 2).Draw(rt, "failing") == 0 {
